@@ -123,8 +123,33 @@ def gen_history(rng, ntx):
     created = set()
     stores = []           # m of store ops (undo targets)
     allm = []
+    # back-pointer CHAINS: modify / undo / modify / undo … on one parent whose restored state is the
+    # only thing referencing a child (oids 6-8 are used by nothing else), so that the record current
+    # at a pack time is an undo record pointing at another undo record (findrefs must chase them all)
+    episode = []
+    chain_at = rng.randrange(1, max(2, ntx - 4)) if (ntx >= 6 and rng.random() < 0.4) else None
     for i in range(ntx):
         m = 2 * i + 2
+        if i == chain_at:
+            par = rng.choice(pool)
+            episode = [('store', [[ROOT, [par] + [rng.choice(pool) for _ in range(rng.choice([0, 1]))], []],
+                                  [par, [6], []], [6, [], []]]),
+                       ('store', [[par, [7], []], [7, [], []]]), ('undo-last', None),
+                       ('store', [[par, [8] + ([6] if rng.random() < 0.2 else []), []], [8, [], []]]),
+                       ('undo-last', None)]
+            if rng.random() < 0.5:
+                episode += [('undo-last', None)] * rng.choice([1, 2])      # redo, undo of the redo
+        if episode:
+            kind, recs = episode.pop(0)
+            if kind == 'store':
+                ops.append(dict(m=m, op='store', recs=recs))
+                for o, _, _ in recs:
+                    created.add(o)
+                stores.append(m)
+            else:
+                ops.append(dict(m=m, op='undo', target=allm[-1]))
+            allm.append(m)
+            continue
         r = rng.random()
         if i == 0 or r < 0.52 or not stores:
             recs = []
